@@ -78,7 +78,7 @@ def C06():
              "case of the vineyard case analysis (E essential, P positive paired, N negative)"),
     "bounds": {
         "quick": ("triangle universe (7 cells): closure (all finite histories) for 40 option sets with default IDs at the semantic "
-                  "key level, for the 4 RU option sets with container indexing also at the summary level, and for the 12 chain structure option "
+                  "key level, for the 4 RU option sets with container indexing and the 2 chain option sets without stored barcode (container indexing) also at the summary level, and for the 12 chain structure option "
                   "sets with caller-chosen IDs"),
         "thorough": ("triangle: closure at the summary key level for 40 option sets (default IDs, merge validation) and for the 20 "
                      "structure option sets with caller-chosen IDs; full key to depth 9 with merge validation (8 option sets); "
@@ -103,6 +103,9 @@ def C06():
         "quick": (
             runs(ALL, ["--uni", "tri", "--ids", "default", "--key", "semantic", "--budget", "250"], timeout=400) +
             runs([0], ["--uni", "tri", "--ids", "default", "--key", "summary", "--budget", "250"], timeout=400) +
+            # the exact ID pattern matters where the matrix has nothing but IDs to order cells (no stored barcode)
+            [{"unit": "c06_g2", "args": ["--cfg", n, "--uni", "tri", "--ids", "default", "--key", "summary", "--budget", "250"],
+              "cores": 1, "timeout": 400} for n in ("chain.cont.nobar.map.iset", "chain.cont.nobar.vec.iset")] +
             runs(CHAIN_STRUCT, ["--uni", "tri", "--ids", "explicit", "--key", "semantic", "--budget", "250"], timeout=400)
         ),
         "thorough": (
